@@ -302,10 +302,17 @@ func heapName(t types.Type) string {
 }
 
 // ghostHeaps: ghost state declared in contracts ("ghost heap name keysort valsort"):
+// sinceUnlockKey: pseudo-heap (an Int) carried in the state like the held-lock heaps: the
+// allocation counter when the function last released a lock (at entry: the entry counter).
+const sinceUnlockKey = "G_held|#since"
+
 // name -> {key sort, value sort}. Filled when contracts are loaded.
 var ghostHeaps = map[string][2]string{}
 
 func heapSort(name string) string {
+	if name == sinceUnlockKey {
+		return "Int"
+	}
 	if strings.HasPrefix(name, "G_held|") {
 		return "(Array Ptr Bool)"
 	}
@@ -331,7 +338,7 @@ func heapSort(name string) string {
 		return "(Array Ptr Int)"
 	}
 	if strings.HasPrefix(name, "Mdom|") {
-		return "(Array Ptr (Array " + strings.TrimPrefix(name, "Mdom|") + " Bool))"
+		return "(Array Ptr (Array " + strings.SplitN(strings.TrimPrefix(name, "Mdom|"), "|", 2)[0] + " Bool))"
 	}
 	if strings.HasPrefix(name, "Mval|") {
 		parts := strings.SplitN(strings.TrimPrefix(name, "Mval|"), "|", 2)
